@@ -26,16 +26,19 @@ package internal
 //@   ensures n < 0 ==> result == -n
 //@   modifies nothing
 
-// valmem(v): the size KeyData.GetMem accounts for value v (beyond the fixed 24 bytes of the deadline).
-// GetMem walks hashes, lists and sets; its result is treated as a function of the value (assumed contract).
-//@ ufun valmem(v any) int64
+// valmem(v): the size KeyData.GetMem accounts for value v beyond the fixed 24 bytes of the deadline: defined for the
+// scalar value types; for hashes, lists, sets and sorted sets it is the uninterpreted compmem(v) (GetMem walks the
+// collection; that part of GetMem is taken as the definition of the accounted size).
+//@ spec valmem(v any) int64 = v == nil ? 0 : (isint(v) ? 8 : (isfloat(v) ? 8 : (isint64(v) ? 8 : (isstr(v) ? 16 + len(asstr(v)) : compmem(v)))))
 // memok(v): GetMem supports the dynamic type of v (it returns an error for any other type).
-//@ ufun memok(v any) bool
+//@ spec memok(v any) bool = v == nil || isint(v) || isfloat(v) || isint64(v) || isstr(v) || istype(v, "map[string]interface{}") || istype(v, "[]string") || implements(v, "constants.CompositeType")
 
-//@ func (*KeyData).GetMem trusted props C19
-//@   ensures result1 == nil ==> result0 == 24 + valmem(k.Value)
-//@   ensures (result1 == nil) <==> memok(k.Value)
-//@   ensures result0 >= 0
+//@ func (*KeyData).GetMem props C19
+//@   ensures {C19} scalar: result1 == nil && (k.Value == nil || isint(k.Value) || isfloat(k.Value) || isint64(k.Value) || isstr(k.Value)) ==> result0 == 24 + valmem(k.Value)
+//@   ensures {C19} scalarok: (k.Value == nil || isint(k.Value) || isfloat(k.Value) || isint64(k.Value) || isstr(k.Value)) ==> result1 == nil
+//@   ensures {C19} trusted-composite: result1 == nil ==> result0 == 24 + valmem(k.Value)
+//@   ensures {C19} okdef: (result1 == nil) <==> memok(k.Value)
+//@   ensures nonneg: result0 >= 0
 //@   modifies nothing
 
 // ---- the keyspace functions a command handler receives ---------------------------------------------
@@ -51,3 +54,7 @@ package internal
 //@ field internal.HandlerFuncParams.Flush = sugardb.(*SugarDB).Flush recv $srv
 //@ field internal.HandlerFuncParams.SwapDBs = sugardb.(*SugarDB).SwapDBs recv $srv
 //@ field internal.HandlerFuncParams.GetClock = sugardb.(*SugarDB).getClock recv $srv
+
+// Key extraction functions only inspect the command.
+//@ functype KeyExtractionFunc props C06
+//@   modifies nothing
